@@ -42,10 +42,12 @@ Next ==
             \/ Do(<<"fill", t, 5>>)
             \/ Do(<<"zeros_like", t>>) \/ Do(<<"ones_like", t>>)
             \/ \E t2 \in DOMAIN tabs : Do(<<"add", t, t2>>) \/ Do(<<"eq", t, t2>>)
-            \/ Do(<<"items", t>>))
+            \/ Do(<<"items", t>>)
+            \/ Len(tabs) < 3 /\ Do(<<"new", hist[1][2], hist[1][3], hist[1][4], hist[1][5], "int", 1>>))      \* again from the same caller arrays
         \/ Alphabet \in {"counter", "both"} /\ hist[1][5] = "counter" /\
            (\/ \E b \in Batches : Do(<<"count", t, b>>)
-            \/ \E q \in {<<tabs[t][1][1]>>} : Do(<<"getvec", t, q>>))
+            \/ \E q \in {<<tabs[t][1][1]>>} : Do(<<"getvec", t, q>>)
+            \/ Len(tabs) < 2 /\ Do(<<"new", hist[1][2], hist[1][3], hist[1][4], hist[1][5], "int", 1>>))
 Spec == Init /\ [][Next]_vars
 MemberLemma == MembershipExact(U)
 \* abstract lemmas about counting, checked once on every freshly built table
